@@ -67,39 +67,62 @@ St2SwapEv(ev) ==
                 <<"C03.swap.fees=floor(share*gross)",
                    ev.out.sf = MulFloor(g, f.s) /\ ev.out.pf = MulFloor(g, f.p) /\ ev.out.bf = MulFloor(g, f.b)>>,
                 <<"C03.swap.proceeds-monotone-in-offer", ev.res2 = "ok" => g \preceq GrossOf(ev.out2)>> >>
+\* A deposit must not mint more than its proportional increase of the invariant: minted / S <= (D1 - D0) / D0 on the
+\* independently solved D.  Dstar is the floor of the real root, so "minted * D0 > S * (D1 + 1 - D0)" proves a real
+\* violation (literal clause).  The code's own D0/D1 come from Newton iterations that stop within one unit, which is
+\* worth a few LP base units (supply never exceeds D in a reachable pool); the dust clause allows 16 units of D of
+\* the coarser asset.  Pools whose reserves are a million-fold apart are judged under their own names: there the
+\* Newton iterations lose many more digits (known finding S20).
+Apart2(a, b) == (N(1000000) ** NMax(One, NMin(a, b))) \preceq NMax(a, b)
+Apart3(a, b, c) == (N(1000000) ** NMax(One, NMin(a, NMin(b, c)))) \preceq NMax(a, NMax(b, c))
+MintChecks(prefix, suffix, m, S, D0, D1, U) ==
+  LET lit == (m ** D0) \preceq (S ** ((D1 ++ One) -- D0))
+  IN << <<prefix \o ".deposit.mint<=proportional-increase-of-the-invariant" \o suffix, lit>>,
+        <<prefix \o ".deposit.mint-excess-within-rounding-dust" \o suffix,
+           lit \/ (D0 \succ (N(16) ** U) /\ ((m -- One) ** (D0 -- (N(16) ** U))) \preceq (S ** ((D1 -- D0) ++ (N(32) ** U))))>> >>
 St2DepEv(ev) ==
   LET a == ev.args
       A0 == Norm(a.pa, a.da)  B0 == Norm(a.pb, a.db)
       A1 == Norm(a.pa ++ a.xa, a.da)  B1 == Norm(a.pb ++ a.xb, a.db)
       inDomain == Pow(N(10), a.da) \preceq a.pa /\ Pow(N(10), a.db) \preceq a.pb
+      U == Pow(N(10), 18 - (IF a.da < a.db THEN a.da ELSE a.db))
+      suffix == IF a.da # a.db THEN "(unequal-decimals)"
+                ELSE IF Apart2(NMax(A0, A1), NMax(B0, B1)) \/ Apart2(A0, B1) \/ Apart2(A1, B0) THEN "(reserves-a-million-fold-apart)" ELSE ""
   IN IF ~inDomain \/ ev.res # "ok" THEN <<>>
-     ELSE LET D0 == Dstar2(A0, B0, a.amp)  D1 == Dstar2(A1, B1, a.amp) IN
-          \* minted / S <= (D1 - D0) / D0, with one LP unit and one unit of D of slack; equal decimals and
-          \* unequal decimals are judged under different names (known finding S10 for the latter)
-          << <<IF a.da = a.db THEN "C03.deposit.mint<=proportional-increase-of-the-invariant"
-               ELSE "C03.deposit.mint<=proportional-increase-of-the-invariant(unequal-decimals)",
-               ((ev.out.minted -- One) ** D0) \preceq (a.S ** ((D1 -- D0) ++ Two))>> >>
+     ELSE MintChecks("C03", suffix, ev.out.minted, a.S, Dstar2(A0, B0, a.amp), Dstar2(A1, B1, a.amp), U)
 
 \* ---- three-asset curve (C04): raw base units -----------------------------------------------------------------
-Dust3(x1, uns, D, amp) ==
-  LET slope == Ystar3(NMax(x1 -- One, One), uns, D, amp) -- Ystar3(x1, uns, D, amp) IN N(3) ++ (N(3) ** slope)
+\* floor(D after) < floor(D before) proves that the real invariant fell (literal clause).  The code solves D and y by
+\* Newton iterations that stop within one unit and subtracts one more unit from the proceeds; what is left of that
+\* is worth a few units times the local slope of the curve, measured on the independent curve (dust clause).
 St3SwapEv(ev) ==
   LET a == ev.args IN
   IF ev.res # "ok" THEN <<>>
-  ELSE LET D == Dstar3(a.src, a.dst, a.uns, a.amp)
+  ELSE LET dy == ev.out.dy
            x1 == a.src ++ a.amt
-           dy == ev.out.dy
-       IN << <<"C04.swap.proceeds<=reserve", dy \preceq a.dst>>,
-             <<"C04.swap.reserve-not-below-the-curve",
-                dy \preceq a.dst => ((a.dst -- dy) ++ Dust3(x1, a.uns, D, a.amp)) \succeq Ystar3(x1, a.uns, D, a.amp)>>,
-             <<"C04.swap.there-and-back-never-profits", ev.res2 = "ok" => ev.out2.dx \preceq a.amt>> >>
+       IN IF a.dst \prec dy THEN << <<"C04.swap.proceeds<=reserve", FALSE>> >>
+          ELSE LET y1 == a.dst -- dy
+                   D0 == Dstar3(a.src, a.dst, a.uns, a.amp)
+                   D1 == Dstar3(x1, y1, a.uns, a.amp)
+                   suffix == IF Apart3(x1, a.dst, a.uns) \/ Apart3(a.src, y1, a.uns) THEN "(reserves-a-million-fold-apart)" ELSE ""
+                   back == ev.res2 = "ok"
+                   prof == back /\ a.amt \prec ev.out2.dx
+                   dustD == N(8) ** ((Dstar3(x1, y1 ++ One, a.uns, a.amp) -- D1) ++ Two)
+                   xa == Ystar3(a.dst, a.uns, D1, a.amp)
+                   dustX == N(8) ** (((Ystar3(NMax(a.dst -- One, One), a.uns, D1, a.amp) -- xa) ++ (Ystar3(a.dst, a.uns, D1 ++ One, a.amp) -- xa)) ++ Two)
+               IN << <<"C04.swap.proceeds<=reserve", TRUE>>,
+                     <<"C04.swap.invariant-never-decreases" \o suffix, D0 \preceq D1>>,
+                     <<"C04.swap.invariant-decrease-within-rounding-dust" \o suffix, D0 \preceq D1 \/ D0 \preceq (D1 ++ dustD)>>,
+                     <<"C04.swap.there-and-back-never-profits" \o suffix, ~prof>>,
+                     <<"C04.swap.there-and-back-profit-within-rounding-dust" \o suffix, ~prof \/ ev.out2.dx \preceq (a.amt ++ dustX)>> >>
 St3DepEv(ev) ==
   LET a == ev.args IN
   IF ev.res # "ok" THEN <<>>
-  ELSE LET D0 == Dstar3(a.pa, a.pb, a.pc, a.amp)
-           D1 == Dstar3(a.pa ++ a.xa, a.pb ++ a.xb, a.pc ++ a.xc, a.amp)
-       IN << <<"C04.deposit.mint<=proportional-increase-of-the-invariant",
-                ((ev.out.minted -- One) ** D0) \preceq (a.S ** ((D1 -- D0) ++ Two))>> >>
+  ELSE LET suffix == IF Apart3(a.pa ++ a.xa, a.pb ++ a.xb, a.pc ++ a.xc) \/ Apart3(a.pa, a.pb, a.pc)
+                        \/ Apart3(a.pa ++ a.xa, a.pb, a.pc) \/ Apart3(a.pa, a.pb ++ a.xb, a.pc) \/ Apart3(a.pa, a.pb, a.pc ++ a.xc)
+                     THEN "(reserves-a-million-fold-apart)" ELSE ""
+       IN MintChecks("C04", suffix, ev.out.minted, a.S, Dstar3(a.pa, a.pb, a.pc, a.amp),
+                     Dstar3(a.pa ++ a.xa, a.pb ++ a.xb, a.pc ++ a.xc, a.amp), One)
 AmpEv(ev) ==
   LET a == ev.args  v == ev.out.amp IN
   << <<"C04.amp.computed", ev.res = "ok">>,
